@@ -31,15 +31,15 @@ def run(cap):
             nmono += 1
         oid = region.connections["outer"]
         if oid is not None:
-            # in units of the floating-point spacing at the boundary value: the closed forms
-            # evaluate 'lower + ...(n)' so the end of one segment equals the start of the next
-            # only up to the rounding of that sum
-            share = max(share, abs(pv[-1] - mesh.regions[oid].psi_vals[0]) / float(np.spacing(max(abs(pv[-1]), abs(pv[0]), abs(mesh.regions[oid].psi_vals[-1])))))
+            # relative to the psi range of the two segments: the closed forms evaluate 'lower + ...(n)'
+            # and two of the five branches fix a coefficient with a root finder (rtol 1e-10), so the end
+            # of one segment equals the start of the next to ~1e-14 of the range (133 ulp seen), never bitwise
+            share = max(share, abs(pv[-1] - mesh.regions[oid].psi_vals[0]) / max(abs(pv[-1] - pv[0]), abs(mesh.regions[oid].psi_vals[-1] - mesh.regions[oid].psi_vals[0]), 1e-300))
             nshare += 1
         wdx = max(wdx, amax(np.abs(region.dx.centre[:, 0] - (pv[2::2] - pv[:-2:2]))) / float(np.spacing(np.abs(pv).max())))
         wmid = max(wmid, amax(np.abs(pv[1::2] - 0.5 * (pv[:-1:2] + pv[2::2])) / np.abs(pv[-1] - pv[0])))
     out.append(rec("psi_vals strictly monotone in every region", cls, nreg, nmono, 0))
-    out.append(rec("adjoining radial segments share the boundary value", cls, nshare, share, 64.0, note="difference in units of the floating-point spacing of the largest |psi| of the two segments (the closed forms sum several terms, each rounded at the magnitude of the largest intermediate: 7 units seen)"))
+    out.append(rec("adjoining radial segments share the boundary value", cls, nshare, share, 1e-9, note="difference relative to the psi range of the segments (same bound as the end-value contract on getSmoothMonotonicGridFunc)"))
     out.append(rec("dx=psi difference of the x-faces (memory)", cls, nreg, wdx, 4.0, note="in units of the floating-point spacing of the largest |psi|"))
     out.append(rec("cell centres at the mid-points of the faces (in psi)", cls, nreg, wmid, 1e-15))
     # file: dx against psi evaluated at the x-face positions in the file
